@@ -239,6 +239,11 @@ def run_multi_case(rng, res: CaseResult):
             mi = st['mi']
             for tn, d in o['snapshot']['tasks'].items():
                 ob = chains[mi]['objs'][tn]
+                exp_has = model.persisting(ob) and model.loc(ob) in model.store
+                if d.get('has_data') != exp_has:
+                    res.violate(f'{here}: has_data of {tn} in member `{names[mi]}` is {d.get("has_data")}, the history (incl. MultiChain.force delete_data) implies {exp_has}',
+                                witness=witness, facts={'tag': 'has_data'})
+                    return
                 if d['forced'] != ob.forced:
                     res.violate(f'{here}: after MultiChain.force is_forced of {tn} in member `{names[mi]}` is {d["forced"]}, the closure of the named tasks says {ob.forced}',
                                 witness=witness, facts={'tag': 'forced_flag'})
